@@ -113,11 +113,14 @@ def execute_fresh(ops, log=None):
 def literal_universe(sem):
     """All literal constraints over one base sentence: (negated, designated, world)."""
     des = (None,) if sem.classical else (True, False)
-    worlds = (0, 1) if sem.modal else (None,)
+    worlds = (0, 1, 2) if sem.modal else (None,)
     return [(neg, d, w) for neg in (False, True) for d in des for w in worlds]
 
 def base_sentences(sem):
-    out = [('atom', ('A', 0, 0)), ('pred', ('P', (0, 0, 1), (('c', 0, 0),)))]
+    out = [('atom', ('A', 0, 0)), ('pred', ('P', (0, 0, 1), (('c', 0, 0),))),
+           ('atom', ('A', 2, 3)), ('pred', ('P', (1, 1, 2), (('c', 3, 2), ('c', 0, 0)))),
+           # the negation as base sentence: literals not-A and not-not-A meet
+           ('negation', ('O', 'Negation', (('A', 1, 0),)))]
     if not sem.modal:
         out.append(('opaque', ('O', 'Possibility', (('A', 0, 0),))))
     if not sem.quantified:
@@ -147,7 +150,7 @@ def gen_literal_case(rng, sem):
         nodes.append([lexgen.to_json(x), d, w])
     nodes += extra
     rng.shuffle(nodes)
-    split = rng.randrange(0, len(nodes) + 1) if rng.random() < 0.4 else None
+    split = rng.randrange(1, len(nodes) + 1) if rng.random() < 0.4 else None     # the parent keeps >= 1 node
     if split is not None and not satisfiable(sem, nodes[:split])[0]:
         # a branch that can already close is never expanded (closure rules come first), so a
         # fork of such a branch is not a history the prover can produce
@@ -161,32 +164,33 @@ def satisfiable(sem, nodes):
     groups = {}
     for sj, d, w in nodes:
         s = lexgen.from_json(sj)
-        n = False
-        if s[0] == 'O' and s[1] == 'Negation' and not sem.is_opaque(s):
-            s, n = s[2][0], True
+        n = 0
+        while s[0] == 'O' and s[1] == 'Negation' and not sem.is_opaque(s):
+            s, n = s[2][0], n + 1
         if sem.classical and s[0] == 'P' and s[1] in (refsem.IDENTITY, refsem.EXISTENCE):
             if s[1] == refsem.EXISTENCE or s[2][0] == s[2][1]:
-                if n:            # not a=a, not !a : unsatisfiable
+                if n % 2:        # not a=a, not !a : unsatisfiable
                     return False, None
                 continue
         groups.setdefault((s, w), []).append((n, d))
+    def negk(v, k):
+        for _ in range(k):
+            v = neg(v)
+        return v
+    def ok(v, cons):
+        for k, d in cons:
+            vv = negk(v, k)
+            if d is None:
+                if vv != 'T': return False
+            elif sem.is_designated(vv) != bool(d):
+                return False
+        return True
     chosen = {}
     for key, cons in groups.items():
-        ok = None
-        for v in sem.values:
-            good = True
-            for n, d in cons:
-                vv = neg(v) if n else v
-                if d is None:
-                    good &= (vv == 'T')
-                else:
-                    good &= (sem.is_designated(vv) == bool(d))
-            if good:
-                ok = v if ok is None else ok
-        if ok is None:
+        allowed = [v for v in sem.values if ok(v, cons)]
+        if not allowed:
             return False, key
-        chosen[key] = [v for v in sem.values if all(
-            ((neg(v) if n else v) == 'T') if d is None else (sem.is_designated(neg(v) if n else v) == bool(d)) for n, d in cons)]
+        chosen[key] = allowed
     return True, chosen
 
 def execute_literals(spec):
